@@ -206,6 +206,13 @@ Definition line_es_seq (id : Z) (es : list cand) (tolt : option float) (tolu : o
   seq_line "S" id (map (fun st => line_payload (line_es id es tolt tolu (fst (fst (fst st))) mapping lookup
                                                           (snd (fst (fst st))) (snd (fst st)) (snd st))) steps).
 
+(* ---- stages: the files of a case are rewritten in place and a new plugin is built from the same paths; every
+        stage is an independent run of model / specification on the contents at its build time.  The argument
+        is the list of the stages' complete lines. ---- *)
+Definition stages_line (tag : string) (id : Z) (ls : list string) : string :=
+  let parts := map line_payload ls in
+  line tag id (if existsb (String.eqb unspecified) parts then unspecified else join " || " parts).
+
 (* convenience for the case files *)
 Definition C (i : Z) (x y : Q) : cand := mkCand i (x, y).
 End MMRun.
